@@ -251,7 +251,7 @@ _BX_TRUST = ['BX reference implementations (CRC-32, MD5, SHA-1, SHA-256, HMAC, T
 PROPS['C03'] = {
     'level': 'exploration',
     'vx': [{'unit': 'layout'}, {'unit': 'writers', 'functions': ['write_into', 'write_into_unchecked', 'to_bytes', 'write_header']},
-           {'unit': 'builder', 'functions': ['write_into', 'into_owned', 'to_owned', 'add_fingerprint_unchecked', 'add_message_integrity_unchecked', 'integrity_bytes_from_message', 'theorem_sealed_fingerprint', 'theorem_sealed_sha1', 'theorem_sealed_sha256', 'lemma_last_tlv', 'lemma_layout_push', 'lemma_layout_split', 'lemma_write_step', 'lemma_write_room', ':: from', ':: new', 'theorem_builder_wellformed', 'theorem_unsealed_builder_parses', 'theorem_fingerprinted_builder_parses', 'lemma_blayout_tail_ok', 'lemma_blist_push', 'lemma_unsealed_ok', 'lemma_flags_unsealed', 'lemma_layout_mod4']}],
+           {'unit': 'builder', 'functions': ['write_into', 'into_owned', 'to_owned', 'add_fingerprint_unchecked', 'add_message_integrity_unchecked', 'integrity_bytes_from_message', 'theorem_sealed_fingerprint', 'theorem_sealed_sha1', 'theorem_sealed_sha256', 'lemma_last_tlv', 'lemma_layout_push', 'lemma_layout_split', 'lemma_write_step', 'lemma_write_room', ':: from', ':: new', 'theorem_builder_wellformed', 'theorem_unsealed_builder_parses', 'theorem_fingerprinted_builder_parses', 'theorem_guarded_builder_parses', 'theorem_guarded_builder_exposes_all', 'lemma_all_exposed', 'lemma_offsets_describe', 'lemma_all_offsets_len', 'lemma_layout_head', 'lemma_ordered_blist', 'lemma_ordered_push', 'lemma_ordered_ext', 'lemma_blayout_tail_ok', 'lemma_blist_push', 'lemma_unsealed_ok', 'lemma_flags_unsealed', 'lemma_layout_mod4']}],
     'kx': ['k03_build_small'],
     'bx': ['c03'],
     'technique': 'Verus: spec-level round-trip theorem over the verified parser/writer contracts; bounded stand-in (execution of the real MessageBuilder against an independent serialiser + reference decoder) for the builder itself',
@@ -261,6 +261,7 @@ PROPS['C03'] = {
                '(unit builder) MessageBuilder::write_into, for attribute lists of ANY length: into an exact or larger destination it writes header20(type, body length, magic cookie, 96-bit transaction id) followed by the padded TLVs of the attributes in order and reports exactly that length (so length = 20 + a sum of multiples of four, header length field = length - 20), touching nothing beyond it; AttrOrRaw::write_into dispatches to the two writers; MessageType::write_into',
                '(unit builder) sealing: add_fingerprint_unchecked / add_message_integrity_unchecked append exactly one attribute whose value is the CRC / HMAC of build() with the adjusted length field (over the assumed contracts of build(), the crc/hmac crates and make_hmac_key), and the composition theorems show the sealed serialisation satisfies fp_ok / mi_correct / mi256_correct; AttrOrRaw::into_owned, RawAttribute::into_owned, Data::into_owned preserve type and value bytes',
                '(unit builder) theorem_builder_wellformed / theorem_unsealed_builder_parses / theorem_fingerprinted_builder_parses: the bytes that write_into is proved to write for a builder whose list obeys the ordering rules (in particular: any list of non-sealing attributes, and such a list sealed by add_fingerprint) satisfy wf_message - the predicate for which Message::from_bytes is proved Ok <==> wf_message in unit parse - with length a multiple of four, header length field = length - 20, and the type and transaction id in the header',
+               '(unit builder) [C03.sequence] theorem_guarded_builder_exposes_all + lemma_offsets_describe: for every builder obeying the grammar that the guarded operations are proved to preserve (ord()), the exposed attribute stream of its bytes - which MessageAttributesIter::next is proved to yield (unit parse) - consists of exactly the attributes of the builder in order, the k-th exposed TLV carrying the type and the value bytes of the k-th attribute, the sealing attributes included',
                '(in C02/C10) the parser accepts exactly the well-formed buffers and exposes them faithfully - so "parses back identically" reduces to "the builder concatenates header and attribute TLVs as specified" (now proved for write_into) plus the sealing values'],
     'bounded': ['byte_len (iterator map/sum) == 20 + padded TLV sizes and build() == header + TLVs: assumed in VX; BX compares them with the independent serialiser, Kani k03_build_small (thorough tier) checks them on builders of two raw attributes with symbolic types / 0..=4 symbolic value bytes / all ids',
                 'build() (vec![0; byte_len] then write_into; iterator sum): assumed == header + TLVs in VX; MessageBuilder::clone: BX random builder programs',
